@@ -87,14 +87,41 @@ Qed.
 Lemma lookup_map_vals {A B} (f : A -> B) (m : fmap A) k : lookup k (map (fun kv => (fst kv, f (snd kv))) m) = option_map f (lookup k m).
 Proof. induction m as [|[k0 v0] m IH]; cbn; auto. destruct (str_eqb k k0); auto. Qed.
 
-Lemma lookup_apply_env e vals k :
-  lookup k (apply_env e vals) = if mem k vals then None else option_map of_obj (lookup k (store e)).
+Lemma lookup_apply_base (m : fmap obj) (vals : item) k :
+  lookup k (flat_map (fun kv => if mem (fst kv) vals then [] else [(fst kv, of_obj (snd kv))]) m)
+  = if mem k vals then None else option_map of_obj (lookup k m).
 Proof.
-  unfold apply_env. induction (store e) as [|[k0 v0] m IH]; cbn.
+  induction m as [|[k0 v0] m IH]; cbn.
   - destruct (mem k vals); reflexivity.
   - destruct (mem k0 vals) eqn:M0; cbn.
     + rewrite IH. destruct (str_eqb k k0) eqn:E; auto. apply str_eqb_eq in E; subst. now rewrite M0.
     + destruct (str_eqb k k0) eqn:E; auto. apply str_eqb_eq in E; subst. now rewrite M0.
+Qed.
+
+Lemma lookup_filter_keys (it vals : item) k :
+  lookup k (filter (fun kv => mem (fst kv) vals) it) = if mem k vals then lookup k it else None.
+Proof.
+  induction it as [|[k0 v0] it IH]; cbn; [destruct (mem k vals); reflexivity|].
+  destruct (mem k0 vals) eqn:M0; cbn.
+  - destruct (str_eqb k k0) eqn:E; [apply str_eqb_eq in E; subst; now rewrite M0|exact IH].
+  - rewrite IH. destruct (str_eqb k k0) eqn:E; auto. apply str_eqb_eq in E; subst. now rewrite M0.
+Qed.
+
+Lemma lookup_fold_insert (l base : item) k :
+  lookup k (fold_right (fun kv acc => insert (fst kv) (snd kv) acc) base l)
+  = match lookup k l with Some v => Some v | None => lookup k base end.
+Proof.
+  induction l as [|[k0 v0] l IH]; cbn [fold_right lookup fst snd]; auto.
+  destruct (str_eqb k k0) eqn:E.
+  - apply str_eqb_eq in E; subst. apply lookup_insert_eq.
+  - rewrite lookup_insert_neq by (now apply str_eqb_neq). exact IH.
+Qed.
+
+Lemma lookup_apply_env e it vals k :
+  lookup k (apply_env e it vals) = if mem k vals then lookup k it else option_map of_obj (lookup k (store e)).
+Proof.
+  unfold apply_env. rewrite lookup_fold_insert, lookup_filter_keys, lookup_apply_base.
+  destruct (mem k vals); [destruct (lookup k it); reflexivity|reflexivity].
 Qed.
 
 Lemma lookup_add_attributes attrs : forall st st' k,
@@ -152,6 +179,20 @@ Proof.
   - destruct (lookup_add_attributes_item it [] st1 k v Hw A1 Li) as [o [To Lo]].
     rewrite Lo. unfold pass_through. rewrite To. reflexivity.
   - rewrite (lookup_add_attributes it [] st1 k A1 Li). reflexivity.
+Qed.
+
+(* ... and an attribute of the item that is literally named like a value placeholder of the request can not be addressed
+   by the expression at all: it comes out exactly as it went in *)
+Theorem update_frame_placeholder_named expr it vals names it' k :
+  lang_update expr it vals names = Ok it' -> mem k vals = true -> lookup k it' = lookup k it.
+Proof.
+  intros Hu Hv. unfold lang_update in Hu.
+  destruct (parse_upd expr) as [[ast nerr]|]; [|discriminate].
+  destruct (negb (Nat.eqb nerr 0)); [discriminate|].
+  destruct (add_attributes [] it) as [st1|]; [|discriminate].
+  destruct (add_attributes st1 vals) as [st2|]; [|discriminate].
+  destruct (eval_update_stmt _ ast) as [e'|]; [|discriminate].
+  inversion Hu; subst it'. now rewrite lookup_apply_env, Hv.
 Qed.
 
 (* REMOVED MEANS GONE: the last action on a top-level attribute being REMOVE, the attribute is absent afterwards *)
